@@ -155,6 +155,32 @@ def cases(rng, tier):
                         if c:
                             out.append(c)
     out.extend(_cover_one_task(rng, tier))
+    out.extend(_uneven(rng, tier))
+    return out
+
+
+# more pool tasks than jobs, the number of tasks not a multiple of the number of jobs: however the tasks are dealt out
+# to the workers (one by one, in blocks, in chunks), some worker gets fewer than the others
+UNEVEN = [(4, 3), (5, 2), (5, 3), (5, 4), (6, 4), (7, 2), (7, 3), (7, 5)]
+
+
+def _uneven(rng, tier):
+    """Axis 0 / axis 1 with 4-7 slices and 2-5 jobs (UNEVEN), per-slice option list or one shared dictionary, through the
+    function and (dictionary) the group object; the other extent is 1 or 2.  Quick: four of the pairs, thorough: all,
+    both axes."""
+    out = []
+    pairs = rng.sample(UNEVEN, 4) if tier == 'quick' else UNEVEN
+    for i, (n_slices, jobs) in enumerate(pairs):
+        for ax in ((i % 2,) if tier == 'quick' else (0, 1)):
+            other = rng.choice([1, 2])
+            n0, n1 = (n_slices, other) if ax == 0 else (other, n_slices)
+            for mode, via in ([('list', 'func')] if tier == 'quick' and i % 2 else [('list', 'func'), ('dict', rng.choice(['func', 'group']))]):
+                c = _one(rng, n0, n1, ax, mode, via, fresh=(via == 'func'))
+                if c is None:
+                    continue
+                c['n_jobs'] = jobs
+                c['kind'] += '/uneven'
+                out.append(c)
     return out
 
 
